@@ -97,6 +97,40 @@ def library_message(v):
     return m.to_er7()
 
 
+def has_choice(ref):
+    if ref is None or not isinstance(ref, tuple) or len(ref) < 2 or not isinstance(ref[1], tuple):
+        return False
+    if ref[0] == 'choice':
+        return True
+    return any(len(row) == 4 and row[3] != 'SEG' and has_choice(row[1]) for row in ref[1])
+
+
+def structure_instances(rng, thorough):
+    """(label, version, text): an instance of message structures of every version - every structure that holds a
+    choice group and a sample of the others (thorough: all) - all children present, one plain line per segment"""
+    import hl7apy
+    import c01
+    out = []
+    for v in versions():
+        lib = hl7apy.load_library(v)
+        names = [m for m in sorted(lib.MESSAGES) if isinstance(lib.MESSAGES[m], tuple) and len(lib.MESSAGES[m]) == 2
+                 and lib.MESSAGES[m][1] and '_' in m]
+        chosen = [m for m in names if has_choice(lib.MESSAGES[m])]
+        rest = [m for m in names if m not in chosen]
+        chosen += rest if thorough else rng.sample(rest, min(10, len(rest)))
+        for m in chosen:
+            for mode in ('all', 'req'):
+                try:
+                    segs = c01.instance_names(lib.MESSAGES[m], mode)
+                except Exception:  # noqa
+                    continue
+                if not segs or segs[0] != 'MSH':
+                    continue
+                lines = [c01.msh_line(m, v)] + ['%s|1' % n if n != 'ANYHL7SEGMENT' else 'ZZZ|1' for n in segs[1:60]]
+                out.append(('%s/%s/%s' % (v, m, mode), v, '\r'.join(lines)))
+    return out
+
+
 def base_messages():
     out = []
     for v in versions():
@@ -366,6 +400,10 @@ def main(argv=None):
         if time.time() - run.t0 > (95 if not run.thorough else 400):
             run.note('time budget: mutants of the base messages after number %d (of %d) were not generated' % (bi + 1, len(bases)))
             break
+    # instances of the message structures themselves (choice groups, nested groups, every version)
+    for label, v, text in structure_instances(rng, run.thorough):
+        feed('structure-instance', label, [('instance', text)],
+             combos=None if run.thorough else [(TOLERANT, True), (STRICT, True), (TOLERANT, False)])
     feed('junk', 'none', junk(rng, 1500 if not run.thorough else 12000))
     run.log('oracle: %d inputs, %s; %d failures' % (len(seen), json.dumps({k: v for k, v in stats.items() if k != 'rejected_by'}),
                                                    len(run.failures)))
